@@ -4,16 +4,7 @@ ENTRIES = [
     ("c04_overlapped", "src/download/delegator.cc", r"uint16_t overlapped = (\d+);", "N"),
     ("c04_endgame_slack", "src/download/download_main.cc",
      r"completed_chunks\(\) \+ m_delegator\.transfer_list\(\)->size\(\) \+ (\d+) >= file_list\(\)->size_chunks\(\)", "N"),
-    # RequestList::calculate_pipe_size
-    ("c04_pipe_norm_thresh", "src/protocol/request_list.cc", r"if \(!m_delegator->get_aggressive\(\)\) \{\s*if \(rate < (\d+)\)", "N"),
-    ("c04_pipe_norm_add", "src/protocol/request_list.cc", r"if \(rate < 20\)\s*return rate \+ (\d+);", "N"),
-    ("c04_pipe_norm_div", "src/protocol/request_list.cc", r"return rate / (\d+) \+ 18;", "N"),
-    ("c04_pipe_norm_base", "src/protocol/request_list.cc", r"return rate / 5 \+ (\d+);\s*\} else", "N"),
-    ("c04_pipe_aggr_thresh", "src/protocol/request_list.cc", r"\} else \{\s*if \(rate < (\d+)\)\s*return rate / 5 \+ 1;", "N"),
-    ("c04_pipe_aggr_lo_div", "src/protocol/request_list.cc", r"if \(rate < 10\)\s*return rate / (\d+) \+ 1;", "N"),
-    ("c04_pipe_aggr_lo_add", "src/protocol/request_list.cc", r"if \(rate < 10\)\s*return rate / 5 \+ (\d+);", "N"),
-    ("c04_pipe_aggr_hi_div", "src/protocol/request_list.cc", r"else\s*return rate / (\d+) \+ 2;", "N"),
-    ("c04_pipe_aggr_hi_add", "src/protocol/request_list.cc", r"else\s*return rate / 10 \+ (\d+);", "N"),
+    # RequestList::calculate_pipe_size is NOT read here: the pipe-size policy is probed from the compiled code (harness `probe-pipe`)
     ("c04_timeout_remove_choked_s", "src/protocol/request_list.h", r"timeout_remove_choked\{(\d+)s\}", "N"),
     ("c04_timeout_process_unordered_s", "src/protocol/request_list.h", r"timeout_process_unordered\{(\d+)s\}", "N"),
     # RequestList::choked early return: 1 iff it also requires the stalled bucket to be empty (0 in the code as first modelled)
